@@ -1122,6 +1122,30 @@ func judgeChangelog(f string, c model.MetaCfg, pkg *pkgread.Pkg, viol func(sig, 
 				return
 			}
 		}
+		// the entry headers carry the configured distribution and urgency (the last entry states an urgency only), the
+		// trailers the configured instants (one of them is written with a zone offset)
+		var heads, instants []string
+		for _, l := range strings.Split(string(txt), "\n") {
+			if strings.HasPrefix(l, c.Name+" (") {
+				heads = append(heads, l)
+			}
+			if strings.HasPrefix(l, " -- ") {
+				if i := strings.LastIndex(l, "  "); i >= 0 {
+					if t, perr := time.Parse("Mon, 02 Jan 2006 15:04:05 -0700", strings.TrimSpace(l[i:])); perr == nil {
+						instants = append(instants, fmt.Sprint(t.Unix()))
+					} else {
+						instants = append(instants, "unparsable:"+strings.TrimSpace(l[i:]))
+					}
+				}
+			}
+		}
+		wantInst := fmt.Sprint([]int64{time.Date(2009, 12, 8, 22, 0, 0, 0, time.UTC).Unix(), time.Date(2009, 11, 10, 23, 0, 0, 0, time.UTC).Unix(), time.Date(2009, 10, 1, 10, 0, 0, 0, time.UTC).Unix(), time.Date(2009, 9, 1, 9, 0, 0, 0, time.UTC).Unix()})
+		if got := "[" + strings.Join(instants, " ") + "]"; got != wantInst {
+			viol("meta:extra-changelog-dates:deb", "changelog trailers state the instants %s, configured %s: %q", got, wantInst, trunc(string(txt), 600))
+		}
+		if len(heads) != 4 || !strings.Contains(heads[0], "bookworm; urgency=medium") || !strings.Contains(heads[1], "bookworm; urgency=medium") || !strings.Contains(heads[3], "urgency=high") {
+			viol("meta:extra-changelog-headers:deb", "changelog entry headers %q do not carry the configured distributions and urgencies (bookworm/medium, bookworm/medium, -, urgency high)", heads)
+		}
 	case "rpm":
 		h := pkg.RPM.Hdr
 		times, titles, texts := h.Ints(1080), h.Strs(1081), h.Strs(1082)
